@@ -30,6 +30,13 @@ def run(tier, replay=None):
                      "start(j) by construction; within one window all true times are < 2^31 ticks apart, a larger spread counts as not contiguous",
                      "metadata damage includes well-formed JSON with one field (every top-level field, every field of the first/last "
                      "segment entry, whole entries) replaced by a value of another type / negative / out of range / fractional / null / nested",
+                     "metadata damage at the compression level: single-bit flips of the written .gz (header, deflate blocks, CRC-32, ISIZE; "
+                     "thorough: every byte of four files, quick: a seeded sample) and valid gzip of a document with one plausible numeric "
+                     "change of the table under the original (stale) CRC/ISIZE trailer",
+                     "duration-disagreement layouts: same-type representations of 8000 / 6000 ms in two AdaptationSets of one MPD or in two "
+                     "MPDs of one directory must be left out in every mode (README 'Content' / consolidateAsset), the 8000 / 8000 ms controls "
+                     "served; video 8000 ms + audio 6016 ms (d_va) is left open by text and documentation: every mode must answer exactly "
+                     "like the scanning server",
                      "admissibility ground truth is by construction of the generated layouts (loop ticks * 1000 mod timescale; "
                      "two video representations of 4 s and 3 s)"]
     c.trusted = ["harness/drive/c15 recorder (request pool, per-class digests, file damage)", "harness/assetgen", "TLC"]
